@@ -147,3 +147,65 @@ func c07CloseWindow(run *rt.Run) {
 		}
 	}
 }
+
+// c05CloseWindow: RegisterPipeline called from inside the Close of a node that RemoveNode is closing. Whether it
+// succeeds is the library's business (is the node still registered at that instant?), but the two calls have to
+// agree: a pipeline that was registered has all its nodes registered afterwards, and a node that was removed
+// cannot have been accepted as a member of a pipeline.
+func c05CloseWindow(run *rt.Run) {
+	ctx := context.Background()
+	F, M, K := eventlogger.NodeTypeFilter, eventlogger.NodeTypeFormatter, eventlogger.NodeTypeSink
+	for _, closeFails := range []bool{false, true} {
+		for _, closer := range []string{"f", "m", "k"} {
+			desc := fmt.Sprintf("close window: RemoveNode(%s), Close fails=%v, RegisterPipeline(t0/p0,[f,m,k]) made from inside Close", closer, closeFails)
+			run.Progress("C05 %s", desc)
+			b, err := eventlogger.NewBroker()
+			if err != nil {
+				run.Inconclusive(err.Error())
+				return
+			}
+			nodes := map[string]*cwNode{"f": {name: "f", typ: F}, "m": {name: "m", typ: M}, "k": {name: "k", typ: K}}
+			for id, n := range nodes {
+				b.RegisterNode(eventlogger.NodeID(id), n)
+			}
+			def := eventlogger.Pipeline{EventType: "t0", PipelineID: "p0", NodeIDs: []eventlogger.NodeID{"f", "m", "k"}}
+			reached := false
+			var winErr error
+			if closeFails {
+				nodes[closer].closeErr = errors.New("close failed")
+			}
+			nodes[closer].onClose = func() {
+				reached = true
+				winErr = b.RegisterPipeline(def)
+			}
+			rmErr := b.RemoveNode(ctx, eventlogger.NodeID(closer))
+			nodes[closer].onClose = nil
+			if !reached {
+				run.Add("close_window_not_reached", 1)
+				continue
+			}
+			run.Add("close_window_scenarios", 1)
+			run.Eval(fmt.Sprintf("w5|%v|%s|%v|%v", closeFails, closer, winErr == nil, rmErr == nil))
+			wit := func() any {
+				return []string{desc, fmt.Sprintf("RegisterPipeline inside Close -> %v", winErr), fmt.Sprintf("RemoveNode -> %v", rmErr)}
+			}
+			again := b.RegisterPipeline(def)
+			if winErr == nil {
+				// the pipeline was accepted: each of its nodes is registered, so the same definition is acceptable again
+				if again != nil {
+					run.Violation("history-pattern:close-window:pipeline-with-missing-node", "RegisterPipeline made from inside Close returned nil, yet registering the same definition again afterwards fails: "+again.Error(), wit())
+					continue
+				}
+				st, serr := b.Send(ctx, "t0", "x")
+				if n := atomic.LoadInt64(&nodes["k"].n); n != 1 {
+					run.Violation("history-pattern:close-window:pipeline-with-missing-node", fmt.Sprintf("the pipeline registered from inside Close delivers to its sink %d times (Send: %v, %v)", n, st.Complete(), serr), wit())
+				}
+				continue
+			}
+			// the pipeline was refused: then the node was gone already, and nothing brought it back
+			if again == nil && rmErr == nil {
+				run.Violation("history-pattern:close-window:removed-node-accepted", "RemoveNode("+closer+") returned nil and the registration made while it was closing was refused, yet the same definition is accepted afterwards although nobody registered the node again", wit())
+			}
+		}
+	}
+}
